@@ -27,3 +27,4 @@ for commit, prop, key in fixed:
     v = [l for l in out.splitlines() if l.startswith("VIOLATION")]
     verdict = "MISSED" if not v else ("caught (no concrete input)" if all(l.endswith("no-failing-input-found") for l in v) else "caught with witness")
     print(f"{prop} {commit} {key}: {verdict}", flush=True)
+subprocess.run("git -C %s checkout -- evidence" % HERE, shell=True)   # evidence of patched-tree runs is not kept
